@@ -3,7 +3,7 @@
    [adv_one] the worker's next round (Op_Model / Op_Proofs); [retained] is C04_Spec's
    "every context reappears, in order (a grouped one may be subsumed by a later context of
    its group)"; [delay] is the integer transcription of CalculateDelayWithMax. *)
-From Verif Require Import Common Op_Model Op_Corr Op_Proofs C04_Spec C04_Delay C04_Proofs.
+From Verif Require Import Common Op_Model Op_Corr Op_Spec Op_Proofs C04_Spec C04_Delay C04_Proofs C04_PProofs.
 
 (* failed, failure not allowed: same task again (failure count + 1), all its contexts
    retained, later tasks of the queue only merged into it (same hook) or left waiting —
@@ -101,3 +101,41 @@ Proof.
   vm_compute. eexists; eexists; eexists; eexists.
   split; [right; left; reflexivity|]. repeat split; reflexivity.
 Qed.
+
+(* The property's decidable predicate C04_Spec.P - at every failed execution the same task is
+   retried with all its contexts and failure count + 1 (at once, or after the back-off delay
+   during which the queue stays blocked on it), with allowFailure it is dropped and only
+   contexts of bindings that allow failure are discarded - holds of the model's own
+   observations for EVERY well-formed configuration and EVERY action sequence. *)
+Theorem C04_P_holds : forall cfg acts,
+  wf_config cfg = true -> C04_Spec.P (cfg, acts, Op_Corr.model_obs (cfg, acts, [])) = true.
+Proof. exact C04_PProofs.P_holds. Qed.
+Print Assumptions C04_P_holds.
+
+(* the invariant that makes the retry clauses true: in every reachable state before Shutdown,
+   the head of a queue that is in a handler or in a back-off delay is a hook task that is
+   not skipped when the worker picks it again (combining never turns it into a skipped
+   Synchronization) *)
+Theorem C04_blocked_head_runs_again : forall cfg acts q,
+  names_ok cfg -> stopped (exec cfg acts init) = false -> In q (queues (exec cfg acts init)) ->
+  is_running q = true ->
+  exists t r, q_items q = t :: r /\ t_type t = HookRun /\ should_run (hook_v0 cfg (t_hook t)) t = true.
+Proof. exact C04_PProofs.blocked_head_runs_again. Qed.
+Print Assumptions C04_blocked_head_runs_again.
+
+(* non-vacuity of C04_P_holds: a well-formed configuration (three hooks, one of them v0, grouped
+   and ungrouped bindings, three queues) and a run with failures, back-off delays, events
+   arriving during a delay, and Shutdown; some queue waits in a delay, some head fails 3 times *)
+Example C04_P_hyp_met :
+  let cfg := [mkHook 1 false (Some 1%Z) [mkKb 1 0 7 true false 1; mkKb 2 0 7 true true 2] [mkSb 3 0 7 true 1; mkSb 4 1 0 false 2];
+              mkHook 2 true None [mkKb 5 0 0 false false 5] [mkSb 6 0 0 true 1];
+              mkHook 3 false (Some 0%Z) [mkKb 7 2 3 false true 7; mkKb 8 2 3 true true 8] [mkSb 9 2 3 false 1]]%N in
+  let acts := [Boot; Finish 0 true; Finish 0 false; Finish 0 true; KubeEv 1 5; KubeEv 1 6; Tick 1; Finish 0 false;
+               Finish 0 false; FinishWait 0; KubeEv 1 9; KubeEv 7 1; KubeEv 8 1; Tick 1; Elapse 0; Finish 0 true;
+               Finish 2 false; FinishWait 2; KubeEv 7 3; Elapse 2; Finish 2 false; Finish 0 false; Finish 0 false;
+               Finish 0 true; Tick 2; FinishWait 1; Tick 2; Elapse 1; Finish 1 false; Stop; Finish 1 false]%N in
+  wf_config cfg = true
+  /\ existsb (fun s => existsb q_delay (queues s)) (trace cfg acts) = true
+  /\ existsb (fun s => existsb (fun q => match q_items q with t :: _ => N.leb 3 (t_fail t) | [] => false end) (queues s))
+             (trace cfg acts) = true.
+Proof. vm_compute. repeat split. Qed.
